@@ -34,7 +34,7 @@ Lemma mark_pv_P best l : (forall x, In x l -> P x) -> forall x, In x (mark_pv be
 Proof.
   intros H. unfold mark_pv. destruct best as [b|]; [|exact H].
   induction l as [|m t IH]; intros x Hx; [contradiction|].
-  cbn in Hx. destruct (opt_mv2_eqb (last_move m) (last_move b)).
+  cbn in Hx. destruct (is_pv_of b m).
   - destruct Hx as [Hx|Hx].
     + subst x. destruct (H m (or_introl eq_refl)) as [m' [Hin Hs]].
       exists m'. split; [exact Hin|]. eapply same_move_trans; [apply same_move_with_oh|exact Hs].
